@@ -642,13 +642,14 @@ def report(pid, tier, results, known, prop, wall):
                 "how_to_replay": f"./check replay {path}",
             }
             json.dump(doc, open(path, "w"), indent=1)
-            has_input = bool(f.get("counterexample")) and bool(nr.get("reproduced"))
+            # (a constant-shaped harness has an empty value list: its playback test is the failing run itself)
+            has_input = (f.get("playback_test") is not None) and bool(nr.get("reproduced"))
             viol.append((path, has_input, r, f))
     # a Kani counterexample that does not reproduce natively is spurious: downgrade to undecided
     real_viol = []
     for path, has_input, r, f in viol:
         nr = f.get("native_replay") or {}
-        if r["mode"] != "V" and f.get("counterexample") and nr.get("ran") and not nr.get("reproduced"):
+        if r["mode"] != "V" and f.get("playback_test") and nr.get("ran") and not nr.get("reproduced"):
             # the first (sliced) run completed with a failed check and the second run produced a concrete input, but that
             # input does not make the same harness fail natively: solver imprecision or an environment that is too weak.
             # Undecided, never an alarm.
